@@ -406,6 +406,50 @@ def f_wide(rng, sid):
     return sc
 
 
+def f_unlock(rng, sid):
+    """commands and groups that are disabled when `cat_init` runs and enabled later, between lines ("service mode"): their
+    names are longer than, shorter than or extend every name enabled at start; after the unlock full names, abbreviations and
+    every suffix must resolve as for a table that never had the flag"""
+    sc = Scenario(sid, cap=1, buf=2 * 64, uns=-1, mutex=0)
+    sc.group(None, False)
+    sc.group(b"svc", True)
+    short = [b"+" + bytes(rng.choice(gen.ALPHA) for _ in range(rng.randint(1, 3))) for _ in range(rng.randint(1, 3))]
+    for nm in short:
+        sc.cmd(Cmd(nm, None, "wrxt", None, group=0))
+    longs = []
+    for _ in range(rng.randint(1, 2)):
+        base = rng.choice(short) if rng.random() < 0.4 else b"+" + bytes(rng.choice(gen.ALPHA) for _ in range(2))
+        nm = base + bytes(rng.choice(gen.ALPHA) for _ in range(rng.randint(3, 9)))
+        longs.append((len(sc.cmds), nm, "c"))
+        sc.cmd(Cmd(nm, None, "wrxt", None, disable=True, group=0))
+    for _ in range(rng.randint(1, 2)):
+        nm = b"+" + bytes(rng.choice(gen.ALPHA) for _ in range(rng.randint(5, 12)))
+        longs.append((len(sc.cmds), nm, "g"))
+        sc.cmd(Cmd(nm, None, "wrxt", None, group=1))
+
+    def ask():
+        for ci, nm, _ in longs:
+            typed = nm.upper() if rng.random() < 0.6 else nm.upper()[:rng.randint(2, len(nm))]
+            if rng.random() < 0.3:
+                typed = typed.lower()
+            sc.inp(b"AT" + typed + rng.choice([b"", b"?", b"=7", b"=?"]) + rng.choice([b"\n", b"\r\n"]))
+            drain(sc, 1500)
+        sc.inp(b"AT" + rng.choice(short) + b"\n")
+        drain(sc, 1500)
+    if rng.random() < 0.5:
+        ask()
+    for ci, nm, kind in longs:
+        if kind == "c":
+            sc.op("flag c %d dis 0" % ci)
+    if rng.random() < 0.8:
+        sc.op("flag g 1 0")
+    ask()
+    if rng.random() < 0.4:
+        sc.op("flag g 1 1")
+        ask()
+    return sc
+
+
 def f_rnext(rng, sid):
     """read / test handlers that answer NEXT or DATA_NEXT a few times before finishing, for commands with several
     variables: every round must start from the freshly formatted automatic text"""
@@ -501,6 +545,8 @@ def _evcmds(rng, sc):
     sc.cmd(Cmd(b"+BAD", None, "", None, group=-1))          # nothing readable: fails immediately
     sc.cmd(Cmd(b"+LONGNAMEEVENTLONGNAMEEVENT", None, "r", [Var(3, sc.slot(16), 16)], group=-1))
     sc.cmd(Cmd(b"+T", b"about", "t", None, group=-1))
+    # a notification-only command: the host may only ask `=?`; events of both kinds are processed like any other command's
+    sc.cmd(Cmd(b"+N", None, rng.choice(["r", "rt", ""]), [Var(1, a, 1)], only_test=True, group=-1))
 
 
 def f_evt(rng, sid):
@@ -888,7 +934,7 @@ def f_woevt(rng, sid):
 
 
 FAMILIES = {
-    "woevt": f_woevt, "listevt": f_listevt, "rnext": f_rnext, "report": f_report, "wide": f_wide, "flagmid": f_flagmid, "holdtick": f_holdtick,
+    "woevt": f_woevt, "listevt": f_listevt, "rnext": f_rnext, "report": f_report, "wide": f_wide, "unlock": f_unlock, "flagmid": f_flagmid, "holdtick": f_holdtick,
     "mixed": f_mixed, "lines": f_lines, "table": f_table, "num": f_num, "buf": f_buf, "cap": f_cap, "ret": f_ret,
     "sched": f_sched, "evt": f_evt, "hold": f_hold, "mutex": f_mutex, "list": f_list, "access": f_access,
     "fit": f_fit, "bigambig": f_bigambig, "tabevt": f_tabevt,
@@ -904,16 +950,16 @@ def generate(seed, family, n, prefix=None):
 # (family, quick count, thorough count)
 PLAN = {
     "C01": [("lines", 60, 600), ("cap", 40, 400), ("sched", 40, 400), ("mixed", 40, 400), ("table", 20, 200)],
-    "C02": [("table", 50, 800), ("tabevt", 40, 500), ("bigambig", 6, 40), ("lines", 50, 500), ("mixed", 30, 300)],
+    "C02": [("table", 50, 800), ("tabevt", 40, 500), ("bigambig", 6, 40), ("unlock", 30, 400), ("lines", 50, 500), ("mixed", 30, 300)],
     "C03": [("cap", 60, 600), ("fit", 60, 600), ("buf", 40, 500), ("evt", 30, 300), ("mixed", 50, 600), ("list", 20, 300), ("num", 20, 300), ("report", 60, 800)],
     "C04": [("num", 120, 2000), ("lines", 30, 300), ("mixed", 20, 200)],
     "C05": [("buf", 120, 2000), ("lines", 30, 300), ("mixed", 20, 200)],
     "C06": [("cap", 100, 1200), ("lines", 30, 300), ("ret", 60, 500), ("rnext", 40, 300), ("report", 30, 300), ("mixed", 20, 200)],
     "C07": [("access", 60, 800), ("fit", 100, 1500), ("rnext", 60, 500), ("ret", 30, 300), ("lines", 40, 400), ("mixed", 20, 200)],
     "C08": [("access", 100, 1200), ("woevt", 40, 500), ("lines", 30, 300), ("mixed", 20, 200)],
-    "C09": [("lines", 100, 1200), ("table", 40, 400), ("flagmid", 40, 500), ("tabevt", 20, 300), ("mixed", 30, 300)],
+    "C09": [("lines", 100, 1200), ("table", 40, 400), ("flagmid", 40, 500), ("unlock", 30, 400), ("tabevt", 20, 300), ("mixed", 30, 300)],
     "C10": [("ret", 200, 3000), ("listevt", 40, 400), ("report", 30, 300), ("lines", 30, 300), ("mixed", 30, 300)],
-    "C11": [("evt", 60, 700), ("mixed", 60, 700), ("sched", 30, 300), ("list", 20, 200), ("report", 30, 300)],
+    "C11": [("evt", 60, 700), ("mixed", 60, 700), ("hold", 40, 400), ("sched", 30, 300), ("list", 20, 200), ("report", 30, 300)],
     "C12": [("sched", 100, 1200), ("mixed", 30, 300)],
     "C13": [("evt", 100, 1200), ("mixed", 40, 400), ("hold", 20, 200)],
     "C14": [("hold", 100, 1200), ("holdtick", 10, 100), ("mixed", 40, 400)],
@@ -1030,6 +1076,13 @@ def meta_C12(seed, tier, bins, n=None):
             if a.outbytes(f) != b.outbytes(f):
                 msgs.append("output of the %s machine under the schedule %r differs from its output under the eager schedule %r"
                             % (nm, a.outbytes(f)[:200], b.outbytes(f)[:200]))
+        # ... and the merged stream must be made of whole units under the schedule if it is under the eager one
+        try:
+            ua, ub = props.oracle_C11(a), props.oracle_C11(b)
+        except Exception:
+            ua = ub = None
+        if ua and not ub:
+            msgs.append("under the eager schedule the output is a sequence of whole units, under this schedule it is not: " + str(ua[0]))
         if msgs:
             sc.no_minimise = True
             out.append((sc, ["C12 twin run with a queued event (each producer's own byte stream must not depend on the schedule): " + msgs[0]] + msgs[1:]))
